@@ -675,6 +675,10 @@ def shape_of(v):
 
 
 def shape_fact(name, base):
+    if name == "ndim" and isinstance(base, Sym):
+        for tg in base.tags:
+            if tg.startswith("rank") and tg[4:].isdigit():
+                return Const(int(tg[4:]))
     sh = shape_of(base)
     if sh is None:
         b = base
